@@ -237,11 +237,13 @@ def install(ex):
     def option_unwrap_or(ex, c, a):
         return a[0].f[0] if a[0].variant == 1 else a[1]
 
-    @M(r'^Option::<.*>::unwrap_or_default$')
+    @M(r'^Option::<.*>::unwrap_or_default$|^Result::<.*>::unwrap_or_default$')
     def option_unwrap_or_default(ex, c, a):
-        if a[0].variant == 1:
+        good = 1 if c.startswith('Option') else 0
+        if a[0].variant == good:
             return a[0].f[0]
-        raise Unsupported('unwrap_or_default on None')
+        ty = split_generic(re.search(r'^(?:Option|Result)::<(.*)>::unwrap_or_default$', c).group(1))[0].strip()
+        return default_of(ex, ty)
 
     @M(r'^Option::<.*>::is_some$')
     def option_is_some(ex, c, a):
@@ -576,6 +578,25 @@ def install(ex):
         for i in range(len(dst.items)):
             dst.items[i] = clone_elem(ex, a[1], c)
         return UNIT
+
+    # ------------------------------------------------------------------ async: only the synchronous prefix of a coroutine is executed
+    @M(r'^Pin::<.*>::new_unchecked$|^std::pin::Pin::<.*>::new_unchecked$|^Pin::<.*>::new$')
+    def pin_new(ex, c, a):
+        return Agg('Pin', {0: a[0]})
+
+    @M(r'^<.* as IntoFuture>::into_future$')
+    def into_future(ex, c, a):
+        return a[0]
+
+    @M(r'^<.* as Future>::poll$')
+    def future_poll(ex, c, a):
+        from .core import Suspended
+        hook = (getattr(ex, 'env', None) or {}).get('poll_hook')
+        if hook is not None:
+            r = hook(ex, c, a)
+            if r is not None:
+                return r
+        raise Suspended(c)
 
     # ------------------------------------------------------------------ mem / default / misc
     @M(r'^std::mem::take::<|^core::mem::take::<')
@@ -1240,6 +1261,77 @@ def install(ex):
             return some(old)
         m.items.insert(i, (a[1], a[2]))
         return none()
+
+    # BTreeMap entry API (std::collections::btree_map::Entry: Vacant = 0, Occupied = 1)
+    @M(r'^BTreeMap::<.*>::entry$')
+    def btreemap_entry(ex, c, a):
+        m = a[0].get()
+        i, found = bt_find(ex, c, m, a[1])
+        if found:
+            return Agg('BEntry', {0: Agg('BOccupied', {0: a[0], 1: i})}, 1)
+        return Agg('BEntry', {0: Agg('BVacant', {0: a[0], 1: a[1], 2: i})}, 0)
+
+    def _bvacant_insert(inner, v):
+        items = inner.f[0].get().items
+        items.insert(inner.f[2], (inner.f[1], v))
+        return Ref(_PairRef(items, inner.f[2]), 1)
+
+    @M(r'^(std::collections::)?btree_map::Entry::<.*>::(or_insert|or_insert_with|or_default|or_insert_with_key)(::<.*)?$')
+    def bentry_or_insert(ex, c, a):
+        e = a[0]
+        inner = e.f[0]
+        if e.variant == 1:
+            return Ref(_PairRef(inner.f[0].get().items, inner.f[1]), 1)
+        if '::or_insert_with_key' in c:
+            h = {'k': inner.f[1]}
+            v = _call_fn(ex, a[1], [Ref(h, 'k')])
+        elif '::or_insert_with' in c:
+            v = _call_fn(ex, a[1], [])
+        elif '::or_default' in c:
+            vt = split_generic(re.search(r'Entry::<(.*)>::or_default', c).group(1))[-1].strip()
+            v = default_of(ex, vt)
+        else:
+            v = a[1]
+        return _bvacant_insert(inner, v)
+
+    @M(r'^(std::collections::)?btree_map::Entry::<.*>::and_modify::<')
+    def bentry_and_modify(ex, c, a):
+        e = a[0]
+        if e.variant == 1:
+            inner = e.f[0]
+            _call_fn(ex, a[1], [Ref(_PairRef(inner.f[0].get().items, inner.f[1]), 1)])
+        return e
+
+    @M(r'^(std::collections::)?btree_map::VacantEntry::<.*>::insert$')
+    def bvacant_insert(ex, c, a):
+        return _bvacant_insert(a[0], a[1])
+
+    @M(r'^(std::collections::)?btree_map::OccupiedEntry::<.*>::(get|get_mut|into_mut)$')
+    def boccupied_get(ex, c, a):
+        inner = deref(a[0]) if not c.endswith('into_mut') else a[0]
+        return Ref(_PairRef(inner.f[0].get().items, inner.f[1]), 1)
+
+    @M(r'^(std::collections::)?btree_map::OccupiedEntry::<.*>::insert$')
+    def boccupied_insert(ex, c, a):
+        inner = deref(a[0])
+        items = inner.f[0].get().items
+        k, old = items[inner.f[1]]
+        items[inner.f[1]] = (k, a[1])
+        return old
+
+    @M(r'^(std::collections::)?btree_map::OccupiedEntry::<.*>::(remove|remove_entry)$')
+    def boccupied_remove(ex, c, a):
+        inner = a[0]
+        k, v = inner.f[0].get().items.pop(inner.f[1])
+        return Agg('tuple', {0: k, 1: v}) if c.endswith('remove_entry') else v
+
+    @M(r'^(std::collections::)?btree_map::(Entry|OccupiedEntry|VacantEntry)::<.*>::key$')
+    def bentry_key(ex, c, a):
+        x = deref(a[0])
+        inner = x.f[0] if x.ty == 'BEntry' else x
+        if inner.ty == 'BOccupied':
+            return Ref(_PairRef(inner.f[0].get().items, inner.f[1]), 0)
+        return Ref(inner.f, 1)
 
     @M(r'^BTreeSet::<.*>::insert$')
     def btreeset_insert(ex, c, a):
@@ -1982,6 +2074,28 @@ class SubList:
 
     def __iter__(self):
         return (self.base[k] for k in range(self.s, self.e))
+
+
+def default_of(ex, ty):
+    """<ty as Default>::default() for the types that occur as values"""
+    ty = ty.strip()
+    m = re.match(r'^[ui](\d+|size)$', ty)
+    if m:
+        return Int(64 if m.group(1) == 'size' else int(m.group(1)), 0)
+    if ty == 'bool':
+        return False
+    if ty == '()':
+        return UNIT
+    if ty.startswith('(') and ty.endswith(')'):
+        parts = [x for x in split_generic(ty[1:-1]) if x.strip()]
+        return Agg('tuple', {i: default_of(ex, x) for i, x in enumerate(parts)})
+    if re.match(r'^(std::option::)?Option<', ty):
+        return none()
+    if re.match(r'^(std::vec::)?Vec<', ty):
+        return ListV('Vec', [])
+    if re.match(r'^(std::collections::)?VecDeque<', ty):
+        return ListV('VecDeque', [])
+    return ex.call(f'<{ty} as Default>::default', [])
 
 
 def _rangeinc_next(ex, r, signed=False):
